@@ -212,12 +212,22 @@ var leafAlphabet = map[byte][]*E{
 const rotations = 4
 
 // fill replaces the leaf placeholders of a shape (copying it).
-func fill(shape *E, rot int) *E {
+func fill(shape *E, rot int) *E { return fillWith(shape, rot, nil) }
+
+// fillWith is fill with an override: where it returns a node for a placeholder's type, that node
+// takes the place of the alphabet's value (the running number of the leaves is kept).
+func fillWith(shape *E, rot int, override func(t byte) *E) *E {
 	i := 0
 	var rec func(e *E) *E
 	rec = func(e *E) *E {
 		if e.K == "leaf" {
 			t := e.V[0]
+			if override != nil {
+				if v := override(t); v != nil {
+					i++
+					return v
+				}
+			}
 			if t == 'A' {
 				if i%2 == 0 {
 					t = 'S'
@@ -275,4 +285,100 @@ func nonLeafChild(e *E) (int, *E) {
 var literalForms = []string{
 	`"ab c"`, `""`, `" "`, `"q""q"`, `""""`, `"""a"""`, `"it's"`, `"é ü"`, `"a,b"`, `"(x)"`, `"@x"`,
 	`"b\s"`, `"x\"`, `"a\n"`, `"a\\b"`, `"\"`, `"\\"`, `"c:\t"`, `"q""q\s"`, `"a\"""`, `"\d+"`,
+}
+
+// ---- flanked operands (sub-space 4) -----------------------------------------------------------
+//
+// The chains of sub-space (1) have one nested operand per level, so the text of a nested operand
+// always begins or ends with a leaf. Here the middle construct X of a depth-3 tree O > X > {f, g}
+// has a function call at BOTH ends: its first and its last nestable operand are calls f(...) and
+// g(...) over leaves (all other operands are leaves), so that the migrated text of the operand of O
+// begins with "name(" and ends with ")" although it is not one call. X ranges over every construct
+// with at least two nestable operands (SUM, CONCATENATE, the binary operators - e.g. as POWER's first
+// operand or as a negated subtrahend - ...), O over every construct and operand position.
+
+// flank calls of the quick tier, per result type; the thorough tier uses every call construct
+var quickFlanks = map[string]bool{
+	"ABS/N": true, "MAX/NN": true, "LEN/S": true, "WEEKDAY/D": true, "YEAR/D": true,
+	"UPPER/S": true, "LEFT/SN": true, "WORD/SN": true,
+	"AND/BB": true, "OR/BB": true,
+	"EDATE/DN": true, "EDATE/MN": true,
+}
+
+func flankCalls(want byte, all bool) []*construct {
+	var out []*construct
+	for ci := range constructs {
+		c := &constructs[ci]
+		if c.kind != "call" || len(c.args) == 0 || !fits(want, c.ret) {
+			continue
+		}
+		switch c.name {
+		case "DATE", "TIME", "TODAY", "NOW":
+			continue // literal dates and times are leaves
+		}
+		if all || quickFlanks[c.name+"/"+c.args] {
+			out = append(out, c)
+		}
+	}
+	return out
+}
+
+func leavesOf(c *construct) []*E {
+	a := make([]*E, len(c.args))
+	for i := range a {
+		a[i] = leafOf(c.args[i])
+	}
+	return a
+}
+
+// flankedShapes lists the shapes of sub-space (4). withPar adds, for every shape, the variant with
+// the flanked operand in (legacy) parentheses.
+func flankedShapes(allFlanks, withPar bool, emit func(shape *E)) {
+	for oi := range constructs {
+		o := &constructs[oi]
+		for p := 0; p < len(o.args); p++ {
+			if !nestable(o.args[p]) {
+				continue
+			}
+			for xi := range constructs {
+				x := &constructs[xi]
+				if !fits(o.args[p], x.ret) {
+					continue
+				}
+				first, last := -1, -1
+				for i := 0; i < len(x.args); i++ {
+					if nestable(x.args[i]) {
+						if first < 0 {
+							first = i
+						}
+						last = i
+					}
+				}
+				if first < 0 || first == last {
+					continue
+				}
+				for _, f := range flankCalls(x.args[first], allFlanks) {
+					for _, g := range flankCalls(x.args[last], allFlanks) {
+						mk := func() *E {
+							xa := leavesOf(x)
+							xa[first] = f.build(leavesOf(f))
+							xa[last] = g.build(leavesOf(g))
+							return x.build(xa)
+						}
+						a := leavesOf(o)
+						a[p] = mk()
+						parent := o.build(a)
+						if fitsBare(parent, p, a[p]) {
+							emit(parent)
+						}
+						if withPar {
+							b := leavesOf(o)
+							b[p] = par(mk())
+							emit(o.build(b))
+						}
+					}
+				}
+			}
+		}
+	}
 }
